@@ -112,7 +112,29 @@ func (m *BankModel) Invoke(x *Exec, method string, args []Value, c *ssa.CallComm
 	b := m.env.bank()
 	b.Calls = append(b.Calls, method)
 	ok := IfaceV{}
+	// the sdk's subUnlockedCoins/addCoins reject coins that are not valid: every amount
+	// positive, denominations valid and strictly ascending
+	invalid := func(coins []Value) Value {
+		var prev *smt.Term
+		for _, cv := range coins {
+			d, a := x.coinOf(cv)
+			amt := x.sdkIntNonNil(a, "bank coins")
+			dt := x.strAtomTerm(d)
+			bad := B.Or(B.Le(amt, B.Int(0)), B.Not(x.validDenom(d)))
+			if prev != nil {
+				bad = B.Or(bad, B.Not(x.strLess(prev, dt)))
+			}
+			if x.Branch(bad) {
+				return x.newErr("github.com/cosmos/cosmos-sdk/types/errors.ErrInvalidCoins", "invalid coins")
+			}
+			prev = dt
+		}
+		return nil
+	}
 	move := func(from, to *smt.Term, coins []Value) Value {
+		if e := invalid(coins); e != nil {
+			return e
+		}
 		for _, cv := range coins {
 			d, a := x.coinOf(cv)
 			dt := x.strAtomTerm(d)
@@ -140,6 +162,9 @@ func (m *BankModel) Invoke(x *Exec, method string, args []Value, c *ssa.CallComm
 		return move(x.modAddr(args[1].(StrV)), to, x.coinsOf(args[3]))
 	case "MintCoins":
 		mod := x.modAddr(args[1].(StrV))
+		if e := invalid(x.coinsOf(args[2])); e != nil {
+			return e
+		}
 		for _, cv := range x.coinsOf(args[2]) {
 			d, a := x.coinOf(cv)
 			dt := x.strAtomTerm(d)
@@ -152,6 +177,9 @@ func (m *BankModel) Invoke(x *Exec, method string, args []Value, c *ssa.CallComm
 		return ok
 	case "BurnCoins":
 		mod := x.modAddr(args[1].(StrV))
+		if e := invalid(x.coinsOf(args[2])); e != nil {
+			return e
+		}
 		for _, cv := range x.coinsOf(args[2]) {
 			d, a := x.coinOf(cv)
 			dt := x.strAtomTerm(d)
@@ -252,10 +280,26 @@ func (m *EventMgrModel) Invoke(x *Exec, method string, args []Value, c *ssa.Call
 type RecordedCall struct {
 	Name string
 	Args []Value
+	Rets []Value
 }
 
 func registerEnv(p *Program) {
 	T := sdkTypes
+	// ormlist.Paginate(pageRequest): an opaque list option carrying the request
+	p.Intr["github.com/cosmos/cosmos-sdk/orm/model/ormlist.Paginate"] = func(x *Exec, c *CallCtx) Value {
+		op := OpaqueV{Kind: "orm-paginate", Data: c.Args[0]}
+		if pp, ok := c.Args[0].(PtrV); ok && pp.Obj != nil {
+			if pt, ok := c.Fn.Signature.Params().At(0).Type().(*types.Pointer); ok {
+				if st, ok := pt.Elem().Underlying().(*types.Struct); ok {
+					// generated pulsar structs: state, sizeCache, unknownFields, then the fields
+					for i := 0; i < st.NumFields(); i++ {
+						op.Names = append(op.Names, st.Field(i).Name())
+					}
+				}
+			}
+		}
+		return IfaceV{T: c.Fn.Signature.Results().At(0).Type(), V: op}
+	}
 	p.Intr[T+".UnwrapSDKContext"] = func(x *Exec, c *CallCtx) Value {
 		if mv, ok := c.Args[0].(ModelV); ok {
 			if _, ok := mv.M.(*CtxModel); ok {
